@@ -6,10 +6,11 @@ notification handlers (`notification.rs`) and the configuration-response handler
 *as written*.  Threads, the `Mutex` and the client are modelled as events; the scheduler is an
 arbitrary interleaving of `acquire / finish / die` over the launched jobs.
 
-What is abstract: document texts and diagnostics are opaque tokens (`Nat`); the analysis is a
-parameter `an : Text → Option Diags` (`none` = `Analysis::analyze` returned `Err`).  That the real
-analysis is a function of the text alone although one analyzer object is shared by all jobs is an
-*assumption* of the model; the harness checks it (last publication = fresh analysis).
+What is abstract: document texts, settings and diagnostics are opaque tokens (`Nat`); what a job
+computes is a parameter `an : job id → Text → Option Diags` (`none` = `Analysis::analyze` returned
+`Err`), so the theorems about this file hold whatever each single job's result depends on.
+`Model/SrvCfg.lean` puts the settings and the shared analyzer object on top of this model and
+determines the results from them.
 
 Core Lean only.
 -/
@@ -20,6 +21,9 @@ abbrev Uri := Nat
 abbrev Ver := Option Nat
 abbrev Text := Nat
 abbrev Diags := Nat
+/-- a settings object as the client sent it (`Settings`, parsed from the `workspace/configuration`
+answer); an opaque token like texts -/
+abbrev Cfg := Nat
 
 /-- `a2kit::lang::Document` -/
 structure Doc where
@@ -95,11 +99,11 @@ inductive Event
   | close (u : Uri)
   /-- first half of the handler of the response to the server's `workspace/configuration` request
       (response.rs): `if let Ok(mut mutex) = tools.analyzer.lock() { mutex.set_config(..) }` -/
-  | configLock
+  | configLock (c : Cfg)
   /-- second half of that handler: the new settings are in `tools.config` and one private-analyzer
       job is launched per checkpoint; `order` is the iteration order of the `doc_chkpts` hash map
       (an oracle, like an allocation policy).  No lock is needed for this part. -/
-  | config (live : Bool) (order : List Uri)
+  | config (c : Cfg) (live : Bool) (order : List Uri)
   /-- job `id` returns from `analyzer.lock()` -/
   | acquire (id : Nat)
   /-- job `id` returns from its closure normally -/
@@ -152,7 +156,7 @@ def samePerm (a b : List Uri) : Bool :=
 /-- One transition.  `none` = the event is not enabled in this state (a thread event for a job that
 is not in the matching state; `acquire` of a job that must keep waiting; `configLock` while a job
 holds the mutex — the main thread blocks in `tools.analyzer.lock()`). -/
-def step (an : Text → Option Diags) (s : State) : Event → Option State
+def step (an : Nat → Text → Option Diags) (s : State) : Event → Option State
   | .opn u v t =>
     -- notification.rs:25-42: checkpoint created/replaced, one job launched
     let d : Doc := { uri := u, ver := some v, text := t }
@@ -170,13 +174,13 @@ def step (an : Text → Option Diags) (s : State) : Event → Option State
     some (launch s { uri := u, ver := none, text := t } false)
   | .close u =>
     some { s with docs := erase s.docs u }
-  | .configLock =>
+  | .configLock _ =>
     -- the main thread blocks in `lock()` while a job holds the mutex; a poisoned mutex is skipped;
     -- the guard is released before anything else happens
     match s.lock with
     | .held _ => none
     | _ => some s
-  | .config live order =>
+  | .config _ live order =>
     if samePerm order (keys s.docs) then some (relaunch { s with live := live } order)
     else none
   | .acquire id =>
@@ -196,7 +200,7 @@ def step (an : Text → Option Diags) (s : State) : Event → Option State
     | some j =>
       if j.st ≠ .holding then none
       else
-        let q := updSt s.queue id (fun j => .done (an j.doc.text))
+        let q := updSt s.queue id (fun j => .done (an j.id j.doc.text))
         if j.priv then some { s with queue := q } else some { s with queue := q, lock := .free }
   | .die id =>
     match findJob s.queue id with
@@ -224,71 +228,16 @@ def step (an : Text → Option Diags) (s : State) : Event → Option State
   | .request => some { s with answered := s.answered + 1 }
 
 /-- run a whole event list; `none` as soon as one event is not enabled -/
-def run (an : Text → Option Diags) (s : State) : List Event → Option State
+def run (an : Nat → Text → Option Diags) (s : State) : List Event → Option State
   | [] => some s
   | e :: rest =>
     match step an s e with
     | none => none
     | some s' => run an s' rest
 
-/-! ## The shared analyzer as an explicit component
-
-`step` takes the analysis as a function of the text.  The code has one `Analyzer` *object* behind the
-mutex (`tools.analyzer`), which every shared job mutates: symbol tables, collision maps, Merlin's
-workspace scan.  `stepS` makes that object's state explicit: a job's result is whatever the analyzer
-returns *in the state the previous holder left it in*, in the order in which the jobs obtained the
-mutex.  Jobs launched by the configuration handler own a new analyzer (`Analyzer::new()`). -/
-
-/-- everything `analyze` can leave behind in the analyzer object -/
-abbrev AState := Nat
-
-/-- `Analyzer::new()` and `analyze` + `get_diags` as they are: result *and* successor state may depend
-on the state the analyzer is called in -/
-structure Analyzer where
-  fresh : AState
-  run : AState → Text → Option Diags × AState
-
-structure SState where
-  srv : State
-  /-- state of the analyzer object inside `tools.analyzer` -/
-  shared : AState
-
-def sinit (A : Analyzer) : SState := { srv := init, shared := A.fresh }
-
-/-- the analysis function a job sees when the analyzer is in state `a` -/
-def viewOf (A : Analyzer) (a : AState) : Text → Option Diags := fun t => (A.run a t).1
-
-def stepS (A : Analyzer) (ss : SState) (e : Event) : Option SState :=
-  match e with
-  | .finish id =>
-    match findJob ss.srv.queue id with
-    | none => none
-    | some j =>
-      if j.priv then
-        -- its own `Arc<Mutex<Analyzer::new()>>`
-        (step (viewOf A A.fresh) ss.srv (.finish id)).map (fun s' => { srv := s', shared := ss.shared })
-      else
-        (step (viewOf A ss.shared) ss.srv (.finish id)).map
-          (fun s' => { srv := s', shared := (A.run ss.shared j.doc.text).2 })
-  | e => (step (viewOf A ss.shared) ss.srv e).map (fun s' => { srv := s', shared := ss.shared })
-
-def runS (A : Analyzer) (ss : SState) : List Event → Option SState
-  | [] => some ss
-  | e :: rest =>
-    match stepS A ss e with
-    | none => none
-    | some ss' => runS A ss' rest
-
-/-- `analyze` starts by resetting whatever it keeps: its result does not depend on the state it is
-called in (the successor state is unconstrained) -/
-def Analyzer.resets (A : Analyzer) : Prop := ∀ a t, (A.run a t).1 = (A.run A.fresh t).1
-
-/-- analysis of a text alone, by a new analyzer: what the harness' fresh single-document server computes -/
-def Analyzer.alone (A : Analyzer) : Text → Option Diags := viewOf A A.fresh
-
 /-- what a launched job publishes when it is harvested after a normal analysis -/
-def pubOf (an : Text → Option Diags) (jd : Nat × Doc) : Option Pub :=
-  match an jd.2.text with
+def pubOf (an : Nat → Text → Option Diags) (jd : Nat × Doc) : Option Pub :=
+  match an jd.1 jd.2.text with
   | some d => some { id := jd.1, uri := jd.2.uri, ver := jd.2.ver, diags := d }
   | none => none
 
